@@ -1,12 +1,12 @@
 SPECIFICATION MCSpec
 CONSTANTS
   Stages = 2
-  AccEvals = 1
-  DenseEvals = 1
-  CountRule = "hairer"
+  AccEvals = 0
+  DenseEvals = 0
+  CountRule = "scipy"
   HasHinit = TRUE
   HasSmall = TRUE
-  StiffEvery = 2
+  StiffEvery = 0
   StiffLimit = 2
   NonStiffReset = 2
   Metric = TRUE
